@@ -74,6 +74,15 @@ def handle(ctx, lines, oracle, diffs, origin, theorem, sub="api", sigfun=None):
         C.add_violation(ctx, sig, msg[:600],
                         "# %s violation found by the abstract-tree oracle on the implementation (%s)\n# %s\n# replay: harness %s --replay <this file> --ops o --impl i\n%s\n" % (ctx.pid, origin, msg[:2000], sub, "\n".join(small)))
     elif diffs:
+        # model and implementation differ (possibly only in the directory table): look at the implementation
+        # through the abstract-tree oracle once more, with whole-tree observations appended — a concrete
+        # failing input if the difference is observable
+        if sub == "api":
+            for probe in (["walk"], ["reopen permissive", "walk"], ["reopen strict", "walk"]):
+                o, _ = replay(ctx, list(lines) + probe, tag="probe", sub=sub)
+                if o:
+                    return handle(ctx, list(lines) + probe, o, [], origin + " + probe", theorem, sub=sub, sigfun=sigfun)
+
         def failing(c):
             o, d = replay(ctx, c, sub=sub)
             return bool(d) and not o
